@@ -122,6 +122,7 @@ func newC14Scene(r *rng, k int) *c14Scene {
 
 func runC14(c *runCtx) {
 	defer cleanupScratch()
+	c14FaultyRemove(c)
 	gb := os.Getenv("VERIF_GITBUG")
 	N := c.pick(10, 120)
 	for i := 0; i < N; i++ {
@@ -635,4 +636,65 @@ func c14LateRemote(c *runCtx, r *rng, k int) {
 	}
 	rc.Close()
 	s.repo.Close()
+}
+
+// failRefRepo: a repository whose n-th RemoveRef fails (a full disk, a lock file left by git, a ref packed
+// while it was being removed)
+type failRefRepo struct {
+	repository.TestedRepo
+	failAt, n int
+}
+
+func (f *failRefRepo) RemoveRef(ref string) error {
+	f.n++
+	if f.n == f.failAt {
+		return fmt.Errorf("injected: cannot remove %s", ref)
+	}
+	return f.TestedRepo.RemoveRef(ref)
+}
+
+// c14FaultyRemove: a removal through the cache during which one ref cannot be removed. The removal reports
+// the failure; the removal can be asked for again ("repeating the removal does no further harm"), and then
+// nothing of the bug is left: no ref, no cache entry, and a rebuilt cache does not bring it back.
+func c14FaultyRemove(c *runCtx) {
+	for rep := 0; rep < c.pick(4, 24); rep++ {
+		r := c.rng.fork()
+		k := 1 + rep%3
+		s := newC14Scene(r, k)
+		failAt := 1 + rep%(k+1)
+		fr := &failRefRepo{TestedRepo: s.repo, failAt: failAt}
+		rc := mustCache(fr)
+		rc.SetUserIdentity(mustIdentCache(rc, s.iden.Id()))
+		id := s.target
+		c.context(fmt.Sprintf("removal of %s with %d remotes, RemoveRef call %d fails", id.Human(), k, failAt))
+		err1 := rc.Bugs().Remove(string(id)[:12])
+		c.count(fmt.Sprintf("faulty-remove/failed=%v", err1 != nil))
+		listed := false
+		for _, x := range rc.Bugs().AllIds() {
+			listed = listed || x == id
+		}
+		localRef := false
+		for _, ref := range allRefs(s.repo) {
+			localRef = localRef || ref == "refs/bugs/"+string(id)
+		}
+		// (what a removal that failed half-way leaves is not what the property speaks about: counted only)
+		c.count(fmt.Sprintf("faulty-remove/listed=%v/local-ref=%v", listed, localRef))
+		// asked again, the removal goes through and nothing is left
+		fr.failAt = 0
+		err2 := rc.Bugs().Remove(string(id)[:12])
+		var left []string
+		for _, ref := range allRefs(s.repo) {
+			if strings.HasSuffix(ref, "/"+string(id)) {
+				left = append(left, ref)
+			}
+		}
+		stillListed := false
+		for _, x := range rc.Bugs().AllIds() {
+			stillListed = stillListed || x == id
+		}
+		if err1 != nil && (err2 != nil || len(left) > 0 || stillListed) {
+			c.violation(-1, "C14/remove-not-repeatable", fmt.Sprintf("after a failed removal (%v) the second one answers %v, leaves %v, the cache lists the bug: %v", err1, err2, left, stillListed), nil)
+		}
+		rc.Close()
+	}
 }
